@@ -123,6 +123,13 @@ def cells(thorough):
         c = dict(default_cell(), outcome=o, jsonp=j)
         if emit(c):
             out.append(c)
+    # the same options given by position, in the documented order
+    for npos in (2, 3, 4, 7):
+        for c0 in (dict(default_cell(), interval=1.5, timeout=0.5, buf=100, allow=False, cookie='name'),
+                   dict(default_cell(), interval=1, timeout=2, buf=6, allow=True, cookie='dict_str')):
+            c = dict(c0, positional=npos)
+            if emit(c):
+                out.append(c)
     # options that have nothing to do with the handshake answer, next to the ones that do: CORS credentials off, an open /
     # disabled origin policy, compression off
     for ck, cred, cors in itertools.product(COOKIES, [True, False], ['default', 'star', 'off']):
@@ -155,6 +162,12 @@ def run_cell(impl, via, cell, out):
               allow_upgrades=cell['allow'], cookie=cookie_cfg(cell['cookie']), cors_credentials=cell.get('cred', True))
     if cell.get('cors', 'default') != 'default':
         kw['cors_allowed_origins'] = '*' if cell['cors'] == 'star' else []
+    if cell.get('positional'):
+        # the first n options after async_mode are given by position (ping_interval, ping_timeout, max_http_buffer_size,
+        # allow_upgrades, http_compression, compression_threshold, cookie)
+        order = ['ping_interval', 'ping_timeout', 'max_http_buffer_size', 'allow_upgrades', 'http_compression', 'compression_threshold', 'cookie']
+        defaults = {'http_compression': True, 'compression_threshold': 1024}
+        kw['_positional'] = tuple(kw.pop(k) if k in kw else defaults[k] for k in order[:cell['positional']])
     if cell['transports'] is not None:
         kw['transports'] = list(cell['transports'])
     allowed = cell['transports'] or ['polling', 'websocket']
@@ -166,7 +179,15 @@ def run_cell(impl, via, cell, out):
         beh = SendingConnect(cell['outcome'] == 'send_accept')
     else:
         beh = base.Scripted(connect=outcome_effects(cell['outcome']))
-    w = peer.make_world(impl, server_kwargs=kw, behaviour=beh)
+    try:
+        w = peer.make_world(impl, server_kwargs=kw, behaviour=beh)
+    except TypeError as e:
+        if not cell.get('positional'):
+            raise
+        out.append(_viol(impl, 'open_packet_missing', 'positional=%d' % cell['positional'],
+                         'the server could not be constructed with its first %d options given by position in the documented order: %s'
+                         % (cell['positional'], e), cell, via))
+        return 'bad'
     try:
         if not cell['ws_avail']:
             w.server._async = dict(w.server._async, websocket=None)
